@@ -121,47 +121,17 @@ theorem C02_compact_spec (verts : List (V3 K)) (faces : List (T3 Nat))
 
 
 theorem compact_nil (verts : List (V3 K)) : compact verts [] = ([], []) := by
-  unfold compact usedList
+  have h : ∀ x, (usedList verts.length ([] : List (T3 Nat))).getD x false = false := by
+    intro x
+    by_cases hx : x < verts.length
+    · rw [usedList_getD _ _ _ hx]; simp [usedP]
+    · have : (usedList verts.length ([] : List (T3 Nat))).length ≤ x := by rw [usedList_length]; omega
+      simp [List.getD, List.getElem?_eq_none this]
+  unfold compact
+  simp only [h, List.map_nil]
   simp
 
 /-! ## B. the assembly returns the kernel's triangles, face by face -/
-
-/-- the per-vertex signs the assembly computes -/
-def vsigns (tol : K) (o n : V3 K) (verts : List (V3 K)) : List Int := verts.map fun v => vsign tol (offset o n v)
-
-/-- the classified face list of the assembly: `(face number, face, kind)` -/
-def kindsOf (tol : K) (o n : V3 K) (verts : List (V3 K)) (faces : List (T3 Nat)) (mask : List Bool) :
-    List (Nat × T3 Nat × FaceKind) :=
-  faces.zipIdx.map fun (f, i) =>
-    (i, f, classifyFace (f.map fun j => (vsigns tol o n verts).getD j 0) (mask.getD i true))
-
-def quadSel : Nat × T3 Nat × FaceKind → Option (Nat × T3 Nat × Nat)
-  | (i, f, .quad c) => some (i, f, c)
-  | _ => none
-def triSel : Nat × T3 Nat × FaceKind → Option (Nat × T3 Nat × Nat)
-  | (i, f, .tri c) => some (i, f, c)
-  | _ => none
-def isKeep : Nat × T3 Nat × FaceKind → Bool
-  | (_, _, k) => k == .keep
-
-/-- new vertices / faces / mapping, as the code builds them (before renumbering) -/
-def newVertsOf (eps : K) (o n : V3 K) (verts : List (V3 K)) (quads tris : List (Nat × T3 Nat × Nat)) :
-    List (V3 K) :=
-  verts ++ quads.flatMap (fun e => [(intPoints eps o n (facePos verts e.2.1)).get (e.2.2 + 2),
-                                     (intPoints eps o n (facePos verts e.2.1)).get e.2.2]) ++
-    tris.flatMap (fun e => [(intPoints eps o n (facePos verts e.2.1)).get e.2.2,
-                            (intPoints eps o n (facePos verts e.2.1)).get (e.2.2 + 2)])
-
-def newFacesOf (n0 : Nat) (kept : List (Nat × T3 Nat × FaceKind)) (quads tris : List (Nat × T3 Nat × Nat)) :
-    List (T3 Nat) :=
-  kept.map (·.2.1) ++
-    quadsToTris ((quads.zipIdx).map fun (e, j) =>
-      (e.2.1.get (e.2.2 + 1), e.2.1.get (e.2.2 + 2), n0 + 2 * j, n0 + 2 * j + 1)) ++
-    (tris.zipIdx).map fun (e, j) =>
-      (⟨e.2.1.get e.2.2, (n0 + 2 * quads.length) + 2 * j, (n0 + 2 * quads.length) + 2 * j + 1⟩ : T3 Nat)
-
-def newMappingOf (kept : List (Nat × T3 Nat × FaceKind)) (quads tris : List (Nat × T3 Nat × Nat)) : List Nat :=
-  kept.map (·.1) ++ quads.flatMap (fun e => [e.1, e.1]) ++ tris.map (·.1)
 
 /-- `sliceMesh` on a non-empty vertex list is: classify, build the new vertices and faces, renumber — the two early
     returns of the code (nothing cut and nothing kept / nothing cut) are special cases of the same formula. -/
@@ -176,21 +146,17 @@ theorem sliceMesh_unfold (tol eps : K) (verts : List (V3 K)) (faces : List (T3 N
        (compact (newVertsOf eps o n verts quads tris) (newFacesOf verts.length kept quads tris)).2,
        newMappingOf kept quads tris⟩ := by
   intro kinds kept quads tris
-  have hq : (kinds.filterMap fun (x : Nat × T3 Nat × FaceKind) =>
-      match x with | (i, f, k) => match k with | .quad c => some (i, f, c) | _ => none) = quads := by
-    apply List.filterMap_congr; rintro ⟨i, f, k⟩ _; cases k <;> rfl
-  have ht : (kinds.filterMap fun (x : Nat × T3 Nat × FaceKind) =>
-      match x with | (i, f, k) => match k with | .tri c => some (i, f, c) | _ => none) = tris := by
-    apply List.filterMap_congr; rintro ⟨i, f, k⟩ _; cases k <;> rfl
-  have hk : (kinds.filter fun (x : Nat × T3 Nat × FaceKind) => match x with | (_, _, k) => k == .keep) = kept := by
-    apply List.filter_congr; rintro ⟨i, f, k⟩ _; rfl
   unfold sliceMesh
   have he : verts.isEmpty = false := by cases verts <;> simp_all
   simp only [he, Bool.false_eq_true, if_false]
-  change (let kinds' := kinds; _) = _
-  simp only [hq, ht, hk]
-  by_cases hcut : quads.isEmpty && tris.isEmpty
-  · simp only [hcut, if_true]
+  show (if quads.isEmpty && tris.isEmpty then
+      (if (kept.map (·.2.1)).isEmpty then (⟨[], [], kept.map (·.1)⟩ : Result K)
+       else ⟨(compact verts (kept.map (·.2.1))).1, (compact verts (kept.map (·.2.1))).2, kept.map (·.1)⟩)
+    else ⟨(compact (newVertsOf eps o n verts quads tris) (newFacesOf verts.length kept quads tris)).1,
+          (compact (newVertsOf eps o n verts quads tris) (newFacesOf verts.length kept quads tris)).2,
+          newMappingOf kept quads tris⟩) = _
+  by_cases hcut : (quads.isEmpty && tris.isEmpty) = true
+  · rw [if_pos hcut]
     have hq0 : quads = [] := by
       have := (Bool.and_eq_true _ _).mp hcut; exact List.isEmpty_iff.mp this.1
     have ht0 : tris = [] := by
@@ -200,12 +166,113 @@ theorem sliceMesh_unfold (tol eps : K) (verts : List (V3 K)) (faces : List (T3 N
       simp [newFacesOf, hq0, ht0, quadsToTris]
     have hnm : newMappingOf kept quads tris = kept.map (·.1) := by simp [newMappingOf, hq0, ht0]
     rw [hnv, hnf, hnm]
-    by_cases hke : (kept.map (·.2.1)).isEmpty
-    · simp only [hke, if_true]
+    by_cases hke : (kept.map (·.2.1)).isEmpty = true
+    · rw [if_pos hke]
       have : kept.map (·.2.1) = [] := List.isEmpty_iff.mp hke
       rw [this, compact_nil]
-    · simp only [hke, Bool.false_eq_true, if_false]
-  · simp only [hcut, Bool.false_eq_true, if_false]
-    rfl
+    · rw [if_neg hke]
+  · rw [if_neg hcut]
+
+
+theorem T3.get_lt (n : Nat) (f : T3 Nat) (h : FaceValid n f) (i : Nat) : f.get i < n := by
+  obtain ⟨ha, hb, hc⟩ := h
+  rcases T3.get_cases f i with ⟨_, e, _, _⟩ | ⟨_, e, _, _⟩ | ⟨_, e, _, _⟩ <;> rw [e] <;> assumption
+
+theorem facePos_get (verts : List (V3 K)) (f : T3 Nat) (i : Nat) :
+    (facePos verts f).get i = verts.getD (f.get i) V3.zero := by
+  unfold facePos; rw [T3.get_map]
+
+theorem facePos_append (verts extra : List (V3 K)) (f : T3 Nat) (h : FaceValid verts.length f) :
+    facePos (verts ++ extra) f = facePos verts f := by
+  obtain ⟨ha, hb, hc⟩ := h
+  simp only [facePos, T3.map, getD_append_lt _ _ _ ha, getD_append_lt _ _ _ hb, getD_append_lt _ _ _ hc]
+
+theorem length_flatMap_pair {E α : Type} (l : List E) (g h : E → α) :
+    (l.flatMap fun e => [g e, h e]).length = 2 * l.length := by
+  induction l with
+  | nil => rfl
+  | cons e l ih => simp only [List.flatMap_cons, List.length_append, List.length_cons, List.length_nil, ih]; omega
+
+/-- positional triangles a quad entry `(i, f, c)` contributes (`c` = column of the corner behind) -/
+def quadOut (eps : K) (o n : V3 K) (verts : List (V3 K)) (e : Nat × T3 Nat × Nat) : List (T3 (V3 K)) :=
+  let p := facePos verts e.2.1
+  let x := intPoints eps o n p
+  [⟨p.get (e.2.2 + 1), p.get (e.2.2 + 2), x.get (e.2.2 + 2)⟩, ⟨p.get (e.2.2 + 1), x.get (e.2.2 + 2), x.get e.2.2⟩]
+
+/-- positional triangle a cut-triangle entry `(i, f, c)` contributes (`c` = column of the corner in front) -/
+def triOut (eps : K) (o n : V3 K) (verts : List (V3 K)) (e : Nat × T3 Nat × Nat) : T3 (V3 K) :=
+  let p := facePos verts e.2.1
+  let x := intPoints eps o n p
+  ⟨p.get e.2.2, x.get e.2.2, x.get (e.2.2 + 2)⟩
+
+/-- the faces built by the assembly, read through the vertices built by the assembly, are: the kept faces as they
+    were, then the two triangles of each quad entry, then the triangle of each cut-triangle entry; and every index
+    is valid. -/
+theorem assemble_positions (eps : K) (o n : V3 K) (verts : List (V3 K))
+    (kept : List (Nat × T3 Nat × FaceKind)) (quads tris : List (Nat × T3 Nat × Nat))
+    (hk : ∀ e ∈ kept, FaceValid verts.length e.2.1) (hq : ∀ e ∈ quads, FaceValid verts.length e.2.1)
+    (ht : ∀ e ∈ tris, FaceValid verts.length e.2.1) :
+    (newFacesOf verts.length kept quads tris).map (facePos (newVertsOf eps o n verts quads tris)) =
+        kept.map (fun e => facePos verts e.2.1) ++ quads.flatMap (quadOut eps o n verts) ++
+          tris.map (triOut eps o n verts) ∧
+    ∀ f ∈ newFacesOf verts.length kept quads tris, FaceValid (newVertsOf eps o n verts quads tris).length f := by
+  set qv := quads.flatMap (fun e => [(intPoints eps o n (facePos verts e.2.1)).get (e.2.2 + 2),
+                                      (intPoints eps o n (facePos verts e.2.1)).get e.2.2]) with hqv
+  set tv := tris.flatMap (fun e => [(intPoints eps o n (facePos verts e.2.1)).get e.2.2,
+                                     (intPoints eps o n (facePos verts e.2.1)).get (e.2.2 + 2)]) with htv
+  have hlenq : qv.length = 2 * quads.length := length_flatMap_pair _ _ _
+  have hlent : tv.length = 2 * tris.length := length_flatMap_pair _ _ _
+  have hW : newVertsOf eps o n verts quads tris = verts ++ qv ++ tv := rfl
+  have hWlen : (newVertsOf eps o n verts quads tris).length = verts.length + 2 * quads.length + 2 * tris.length := by
+    rw [hW]; simp only [List.length_append, hlenq, hlent]
+  constructor
+  · unfold newFacesOf
+    rw [List.map_append, List.map_append, hW]
+    congr 1
+    · congr 1
+      · -- kept faces
+        rw [List.map_map]
+        apply List.map_congr_left
+        intro e he
+        simp only [Function.comp]
+        rw [List.append_assoc, facePos_append _ _ _ (hk e he)]
+      · -- quads
+        have := quads_positions (K := K) (fun i => verts.getD i V3.zero) verts.length
+          (fun e : Nat × T3 Nat × Nat => e.2.1.get (e.2.2 + 1)) (fun e => e.2.1.get (e.2.2 + 2))
+          (fun e => (intPoints eps o n (facePos verts e.2.1)).get (e.2.2 + 2))
+          (fun e => (intPoints eps o n (facePos verts e.2.1)).get e.2.2)
+          quads (fun e he => ⟨T3.get_lt _ _ (hq e he) _, T3.get_lt _ _ (hq e he) _⟩) tv
+          0 verts.length verts (by simp) (le_refl _) (fun i _ => rfl)
+        rw [this]
+        apply List.flatMap_congr
+        intro e _
+        simp only [quadOut, facePos_get]
+    · -- triangles
+      have := tris_positions (K := K) (fun i => verts.getD i V3.zero) verts.length
+        (fun e : Nat × T3 Nat × Nat => e.2.1.get e.2.2)
+        (fun e => (intPoints eps o n (facePos verts e.2.1)).get e.2.2)
+        (fun e => (intPoints eps o n (facePos verts e.2.1)).get (e.2.2 + 2))
+        tris (fun e he => T3.get_lt _ _ (ht e he) _) []
+        0 (verts.length + 2 * quads.length) (verts ++ qv) (by simp [hlenq]) (by simp)
+        (fun i hi => getD_append_lt _ _ _ hi)
+      rw [List.append_nil] at this
+      rw [this]
+      apply List.map_congr_left
+      intro e _
+      simp only [triOut, facePos_get]
+  · intro f hf
+    unfold newFacesOf at hf
+    rw [hWlen]
+    simp only [List.mem_append] at hf
+    rcases hf with (hf | hf) | hf
+    · obtain ⟨e, he, rfl⟩ := List.mem_map.mp hf
+      obtain ⟨ha, hb, hc⟩ := hk e he
+      exact ⟨by omega, by omega, by omega⟩
+    · exact quads_valid verts.length (fun e : Nat × T3 Nat × Nat => e.2.1.get (e.2.2 + 1))
+        (fun e => e.2.1.get (e.2.2 + 2)) quads
+        (fun e he => ⟨T3.get_lt _ _ (hq e he) _, T3.get_lt _ _ (hq e he) _⟩) verts.length _ (by omega) 0
+        (by omega) f hf
+    · exact tris_valid verts.length (fun e : Nat × T3 Nat × Nat => e.2.1.get e.2.2) tris (fun e he => T3.get_lt _ _ (ht e he) _)
+        (verts.length + 2 * quads.length) _ (by omega) 0 (by omega) f hf
 
 end PW.C02
